@@ -297,9 +297,23 @@ impl Reg for String {
 	fn descr() -> Value { json!({"k":"str","sz":size_of::<String>()}) }
 	fn gen(g: &mut G) -> Self { let n = g.len(); gen_string(g, n) }
 	fn gen_len(g: &mut G, n: usize) -> Option<Self> {
-		// exactly n bytes
-		let mut s = gen_string(g, n / 3);
-		while s.len() < n { s.push('a') }
+		// exactly n bytes; a multi-byte character straddles every multiple of 16384 (the decoder's read window)
+		let src = gen_string(g, n / 3);
+		let mut s = String::with_capacity(n + 4);
+		let mut it = src.chars();
+		let straddlers = ['\u{e9}', '\u{20ac}', '\u{1f600}'];
+		while s.len() < n {
+			let next = (s.len() / 16384 + 1) * 16384;
+			let room = next - s.len();
+			if room <= 3 && next + 4 <= n {
+				if room == 1 { s.push(straddlers[(next / 16384) % 3]); } else { s.push('a'); }
+				continue;
+			}
+			match it.next() {
+				Some(c) if s.len() + c.len_utf8() < next || next + 4 > n => s.push(c),
+				_ => s.push('a'),
+			}
+		}
 		while s.len() > n { s.pop(); }
 		while s.len() < n { s.push('b') }
 		Some(s)
